@@ -500,7 +500,8 @@ func isCovariant(schema *Schema, required *Type, actual *Type) bool {
 			return true
 		}
 		for _, pt := range schema.PossibleTypes[required.NamedType] {
-			if pt.Name == actual.NamedType {
+			// an undefined union member is recorded as nil, it is reported when the union is validated
+			if pt != nil && pt.Name == actual.NamedType {
 				return true
 			}
 		}
